@@ -28,8 +28,9 @@ for p in sorted(glob.glob(os.path.join(V, 'corpus', '*', '*finding*.json'))):
     except Exception as e:
         print('skip', p, e)
         continue
-    for f in d.get('findings', []):
-        put(f, os.path.relpath(p, V))
+    for f in (d if isinstance(d, list) else d.get('findings', [])):
+        if isinstance(f, dict) and 'id' in f and 'property' in f:
+            put(f, os.path.relpath(p, V))
 for p in sorted(glob.glob(os.path.join(V, 'harness', 'c[0-9][0-9].py'))):
     src = open(p).read()
     try:
